@@ -242,11 +242,21 @@ func (h *hookRun) register() {
 	h.RegCall = tick()
 	err, pnc, _ := guarded(func() error {
 		var e error
-		h.reg, e = database.RegisterHook(h.q, h)
+		h.reg, e = database.RegisterHook(h.q, h.obj())
 		return e
 	})
 	h.RegRet = tick()
 	h.RegErr = errString(err) + pnc
+}
+
+// obj is the Hook value this registration hands to RegisterHook: normally the entry
+// itself, with SameObjAs the object of another entry (one hook object registered
+// under several queries). Calls are recorded under the object's id.
+func (h *hookRun) obj() *hookRun {
+	if k := h.spec.SameObjAs; k > 0 && k-1 < len(h.hr.hooks) {
+		return h.hr.hooks[k-1]
+	}
+	return h
 }
 
 func (h *hookRun) cancel() {
